@@ -1180,4 +1180,70 @@ example : Path.respaceTargets [] [0, 1, 3, 4, (8 : ℚ)] = [0, 2, 4, 6, 8] := by
 example : Path.respaceTargets [2] [0, 1, 3, 4, (8 : ℚ)] = [0, 3/2, 3, 11/2, 8] := by decide +kernel
 end examples3
 
+
+/-! ## climbing images named from the end; the textbook form of the Runge-Kutta step -/
+
+theorem pyIndex_nonneg (n i : Nat) (h : i < n) : pyIndex? n (i : Int) = some i := by
+  unfold pyIndex?
+  have h1 : (0 : Int) ≤ (i : Int) := Int.natCast_nonneg i
+  have h2 : (i : Int) < (n : Int) := by exact_mod_cast h
+  rw [if_pos h1, if_pos h2, Int.toNat_natCast]
+
+/-- an image named from the end (`i - n`, i.e. `-1` for the last one) is the image `i`. -/
+theorem pyIndex_neg_equiv (n i : Nat) (h : i < n) : pyIndex? n ((i : Int) - (n : Int)) = some i := by
+  unfold pyIndex?
+  have h2 : (i : Int) < (n : Int) := by exact_mod_cast h
+  have h1 : ¬ (0 : Int) ≤ (i : Int) - (n : Int) := by omega
+  have h3 : (0 : Int) ≤ (n : Int) + ((i : Int) - (n : Int)) := by omega
+  have h4 : ((n : Int) + ((i : Int) - (n : Int))).toNat = i := by
+    have : (n : Int) + ((i : Int) - (n : Int)) = (i : Int) := by ring
+    rw [this]; exact Int.toNat_natCast i
+  rw [if_neg h1, if_pos h3, h4]
+
+/-- indices outside `-n … n-1` are refused, never silently dropped. -/
+theorem pyIndex_out_of_range (n : Nat) (i : Int) (h : i < -(n : Int) ∨ (n : Int) ≤ i) : pyIndex? n i = none := by
+  unfold pyIndex?
+  rcases h with h | h
+  · have h1 : ¬ (0 : Int) ≤ i := by omega
+    have h2 : ¬ (0 : Int) ≤ (n : Int) + i := by omega
+    rw [if_neg h1, if_neg h2]
+  · have h1 : (0 : Int) ≤ i := by omega
+    have h2 : ¬ i < (n : Int) := by omega
+    rw [if_pos h1, if_neg h2]
+
+/-- a list of climbing images named from the end is the list named from the front: `step(climbindex=[i - N, …])`
+    is `step(climbindex=[i, …])`. -/
+theorem climbImages_neg_equiv (n : Nat) (cs : List Nat) (h : ∀ i ∈ cs, i < n) :
+    climbImages? n (cs.map (fun (i : Nat) => (i : Int) - (n : Int))) = some cs ∧
+    climbImages? n (cs.map (fun (i : Nat) => (i : Int))) = some cs := by
+  induction cs with
+  | nil => exact ⟨rfl, rfl⟩
+  | cons a t ih =>
+    have ha : a < n := h a (List.mem_cons_self)
+    have ht : ∀ i ∈ t, i < n := fun i hi => h i (List.mem_cons_of_mem a hi)
+    obtain ⟨ih1, ih2⟩ := ih ht
+    constructor
+    · rw [List.map_cons, climbImages?, pyIndex_neg_equiv n a ha, ih1]
+    · rw [List.map_cons, climbImages?, pyIndex_nonneg n a ha, ih2]
+
+example : climbImages? 12 [-6] = some [6] ∧ climbImages? 12 [6] = some [6] ∧ climbImages? 12 [-13] = none := by decide
+
+
+section textbook
+variable {K V : Type} [Field K] [CharZero K] [AddCommGroup V] [Module K V]
+
+/-- the textbook form of the Runge-Kutta step (stages NOT scaled by the step, `y + h (k1 + 2 k2 + 2 k3 + k4) / 6`) is the same
+    function of `(f, y, h)` as the coded one (stages scaled when they are formed) -- for EVERY rate function, linear or not:
+    the two differ only in which intermediate objects they keep alive. -/
+theorem rk4_textbook_form (f : V → V) (y : V) (h : K) :
+    rungekutta f y h =
+      (let k1 := f y
+       let k2 := f (y + ((1 : K) / 2 * h) • k1)
+       let k3 := f (y + ((1 : K) / 2 * h) • k2)
+       let k4 := f (y + h • k3)
+       y + (h / 6) • (k1 + (2 : K) • k2 + (2 : K) • k3 + k4)) := by
+  simp only [rungekutta, Nat.cast_ofNat, Nat.cast_one, smul_smul]
+  module
+end textbook
+
 end Atomman.C20
